@@ -1,4 +1,5 @@
 import TinyVerif.Model.Dlmalloc
+import TinyVerif.Model.DlmallocWF
 import TinyVerif.Model.DlPureEval
 import TinyVerif.Drv.Common
 /-! Line-protocol driver for C03 / C04: runs `Model/Dlmalloc.lean` on the op lines of harness/c03
@@ -11,6 +12,7 @@ structure DState where
   full : Bool
   cov : Bool
   poisoned : Bool
+  wf : Bool
 
 def showPtr (a : Nat) : String := if a = 0 then "-" else toString a
 
@@ -122,6 +124,9 @@ def runOp (d : DState) (w : List String) : DState × String :=
     match d.hist.step op dirs with
     | .error e => ({ d with poisoned := true }, "model-error " ++ e)
     | .ok (hs, out) =>
+      match (if d.wf then wfFirstFailure hs else none) with
+      | some part => ({ d with poisoned := true }, "model-error wf:" ++ part)
+      | none =>
       let res := match op with
         | .free _ => "p=ok"
         | _ => "p=" ++ showPtr out.ptr
@@ -148,10 +153,12 @@ def step' (d : DState) (line : String) : DState × String :=
   | ["dump", "hash"] => ({ d with full := false }, "ok")
   | ["cov", "1"] => ({ d with cov := true }, "ok")
   | ["cov", "0"] => ({ d with cov := false }, "ok")
+  | ["wf", "1"] => ({ d with wf := true }, "ok")
+  | ["wf", "0"] => ({ d with wf := false }, "ok")
   | ["verify", k] => (d, if (decNat k).isSome then "ok" else "bad-op")
   | "pure" :: rest => (d, (evalPure rest).getD "bad-op")
   | w => match w with
     | k :: _ => if k = "m" || k = "c" || k = "r" || k = "f" then runOp d w else (d, "bad-op")
     | [] => (d, "bad-op")
 
-def main : IO Unit := Drv.run step' { hist := Hist.init, full := true, cov := false, poisoned := false }
+def main : IO Unit := Drv.run step' { hist := Hist.init, full := true, cov := false, poisoned := false, wf := false }
